@@ -1,5 +1,10 @@
 import GeoVerif.Drv.Util
 import GeoVerif.Drv.C06
+import GeoVerif.Drv.C10
+import GeoVerif.Drv.C18
+import GeoVerif.Drv.C17
+import GeoVerif.Drv.C05
+import GeoVerif.Drv.C04
 import GeoVerif.Drv.C03
 import GeoVerif.Drv.C07
 import GeoVerif.Drv.C01
@@ -22,6 +27,11 @@ def handle (line : String) : String :=
     | ["rel", op] => handleRel op args
     | ["gd", op] => handleGD op args
     | ["cv", op] => handleCV op args
+    | ["mu", op] => handleMulti op args
+    | ["st", op] => handleST op args
+    | ["tr", op] => handleTR op args
+    | ["fc", op] => handleFC op args
+    | ["hull", op] => handleHull op args
     | _ => "bad-op"
 
 partial def loop (i o : IO.FS.Stream) : IO Unit := do
